@@ -150,6 +150,17 @@ const K_FETCH_POST: i64 = 5;
 const K_ITEM: i64 = 6;
 const K_DYNL: i64 = 7;
 const K_BG: i64 = 8;
+const K_BGS: i64 = 9; // background task behind ScopedFuture (spawn_local_scoped*): the owner is promised
+const K_SFN_PRE: i64 = 10; // server-function body before / after its await
+const K_SFN_POST: i64 = 11;
+const K_ROUTE: i64 = 12; // route view: item = the request's own route parameter
+
+/// provided on the root owner; taken (and put back on the current owner) by context-API leaves
+#[derive(Clone, Debug, PartialEq)]
+struct Tag2(i64);
+/// provided on the root owner of *page* requests only: a server-function request finds none
+#[derive(Clone, Debug, PartialEq)]
+struct PageOnly(i64);
 
 /// request (1-based) the ambient owner belongs to; 0 = no owner, 99 = an owner of no request
 fn ambient_owner_req() -> i64 {
@@ -186,10 +197,53 @@ struct Env {
 }
 
 fn probe(env: &Env, probe: i64, kind: i64, slot: Option<i64>) -> String {
+    probe_mode(env, probe, kind, slot, 0)
+}
+
+/// `mode` selects the context API the two context values are read through:
+/// 0 use_context, 1 expect_context, 2 with_context, 3 update_context (value left as it is),
+/// 4 use_context + take_context::<Tag2> (put back on the current owner; reported as the item),
+/// 5 Owner::use_context_bidirectional, 6 (server fn) context 1 = PageOnly
+fn probe_mode(env: &Env, probe: i64, kind: i64, slot: Option<i64>, mode: i64) -> String {
     let owner_req = ambient_owner_req();
-    let t0 = use_context::<Tag0>().map(|t| t.0).unwrap_or(-1);
-    let t1 = use_context::<Tag1>().map(|t| t.0).unwrap_or(-1);
+    let (t0, t1) = match mode {
+        1 => (
+            if use_context::<Tag0>().is_some() { expect_context::<Tag0>().0 } else { -1 },
+            if use_context::<Tag1>().is_some() { expect_context::<Tag1>().0 } else { -1 },
+        ),
+        2 => (
+            with_context::<Tag0, _>(|t| t.0).unwrap_or(-1),
+            with_context::<Tag1, _>(|t| t.0).unwrap_or(-1),
+        ),
+        3 => (
+            update_context::<Tag0, _>(|t| { let v = t.0; t.0 = v; v }).unwrap_or(-1),
+            update_context::<Tag1, _>(|t| { let v = t.0; t.0 = v; v }).unwrap_or(-1),
+        ),
+        5 => match Owner::current() {
+            None => (-1, -1),
+            Some(o) => (
+                o.use_context_bidirectional::<Tag0>().map(|t| t.0).unwrap_or(-1),
+                o.use_context_bidirectional::<Tag1>().map(|t| t.0).unwrap_or(-1),
+            ),
+        },
+        6 => (
+            use_context::<Tag0>().map(|t| t.0).unwrap_or(-1),
+            use_context::<PageOnly>().map(|t| t.0).unwrap_or(-1),
+        ),
+        _ => (
+            use_context::<Tag0>().map(|t| t.0).unwrap_or(-1),
+            use_context::<Tag1>().map(|t| t.0).unwrap_or(-1),
+        ),
+    };
     let item = match slot {
+        None if mode == 4 => match take_context::<Tag2>() {
+            None => -1,
+            Some(t) => {
+                let still = use_context::<Tag2>().is_some();
+                provide_context(Tag2(t.0));
+                if still { -4 } else { t.0 }
+            }
+        },
         None => -9,
         Some(s) if s >= 100 => {
             let h = env.sigs.lock().unwrap().get(&s).copied();
@@ -346,7 +400,22 @@ fn build(p: &Sexp, env: &Env) -> AnyView {
             let rx = env.gates[p.at(1).num() as usize].clone();
             let id = p.at(2).num();
             let slot = p.at(3).num();
+            let mode = p.at(4).num();
             let env = env.clone();
+            if mode == 1 || mode == 2 {
+                // spawn_local_scoped(_with_cancellation): ScopedFuture + Sandboxed, so the task is
+                // promised its owner as well
+                let task = async move {
+                    let _ = rx.await;
+                    probe(&env, id, K_BGS, Some(slot));
+                };
+                if mode == 1 {
+                    reactive_graph::spawn_local_scoped(task);
+                } else {
+                    reactive_graph::spawn_local_scoped_with_cancellation(task);
+                }
+                return "bgs".into_any();
+            }
             reactive_graph::spawn(async move {
                 let _ = rx.await;
                 let item = if slot >= 100 {
@@ -369,7 +438,353 @@ fn build(p: &Sexp, env: &Env) -> AnyView {
             let id = p.at(1).num();
             (move || probe(&env, id, K_DYNL, None)).into_any()
         }
+
+        14 => probe_mode(env, p.at(1).num(), K_LEAF, None, p.at(2).num()).into_any(),
+        15 => build_router(p, env),
+        16 => build_resource(p, env),
+        17 => {
+            // the Owner API used directly by a component
+            let mode = p.at(1).num();
+            let id = p.at(2).num();
+            let log = move || {
+                W.with(|w| {
+                    let mut w = w.borrow_mut();
+                    let d = w.cur_req as i64;
+                    w.cleanups.push((r, id, d));
+                })
+            };
+            match mode {
+                1 => {
+                    // a child owner that a background task cleans up by hand once gate g is done
+                    let rx = env.gates[p.at(3).num() as usize].clone();
+                    let o = Owner::current().map(|o| o.child()).unwrap_or_default();
+                    let v = o.with(|| {
+                        on_cleanup(log);
+                        build(p.at(4), env)
+                    });
+                    let o2 = o.clone();
+                    reactive_graph::spawn(async move {
+                        let _ = rx.await;
+                        o2.cleanup();
+                    });
+                    tachys::reactive_graph::OwnedView::new_with_owner(v, o).into_any()
+                }
+                2 => {
+                    // Owner::with_cleanup: the second entry cleans up what the first one registered
+                    let o = Owner::new();
+                    o.with_cleanup(|| Owner::on_cleanup(log));
+                    let v = o.with_cleanup(|| build(p.at(4), env));
+                    tachys::reactive_graph::OwnedView::new_with_owner(v, o).into_any()
+                }
+                _ => {
+                    let o = Owner::new();
+                    let v = o.with(|| build(p.at(4), env));
+                    tachys::reactive_graph::OwnedView::new_with_owner(v, o).into_any()
+                }
+            }
+        }
+        18 => {
+            // the request's SsrSharedContext reached through the ambient owner
+            let id = p.at(1).num();
+            let mode = p.at(2).num();
+            let s = probe(env, id, K_LEAF, None);
+            let extra = match Owner::current_shared_context() {
+                None => "nosc".to_string(),
+                Some(sc) => match mode {
+                    1 => {
+                        use leptos::error::{Error, ErrorId};
+                        let b = hydration_context::SerializedDataId::new(id as usize);
+                        sc.register_error(
+                            b.clone(),
+                            ErrorId::from(id as usize),
+                            Error::from(std::io::Error::other(format!("err-of-request-{r}"))),
+                        );
+                        let all: Vec<String> =
+                            sc.errors(&b).into_iter().map(|(i, e)| format!("{i}={e}")).collect();
+                        format!("errors[{}]", all.join(","))
+                    }
+                    2 => {
+                        let b = hydration_context::SerializedDataId::new(900 + id as usize);
+                        let before = sc.get_incomplete_chunk(&b);
+                        sc.set_incomplete_chunk(b.clone());
+                        format!("incomplete[{before},{}]", sc.get_incomplete_chunk(&b))
+                    }
+                    3 => Owner::with_no_hydration(move || {
+                        let sc = Owner::current_shared_context().unwrap();
+                        format!("nohyd[{},{}]", sc.get_is_hydrating(), usize::MAX - sc.next_id().into_inner())
+                    }),
+                    4 => Owner::with_hydration(move || {
+                        let sc = Owner::current_shared_context().unwrap();
+                        format!("hyd[{},{}]", sc.get_is_hydrating(), sc.next_id().into_inner())
+                    }),
+                    _ => format!("id[{},{}]", sc.get_is_hydrating(), sc.next_id().into_inner()),
+                },
+            };
+            format!("{s}{extra}").into_any()
+        }
+        19 => {
+            let kind = p.at(1).num();
+            let n = p.at(2).num().clamp(0, 4);
+            let child = p.at(3).clone();
+            let env = env.clone();
+            if kind == 1 {
+                view! {
+                    <ForEnumerate
+                        each={move || 0..n}
+                        key={|i: &i64| *i}
+                        children={move |ix: ReadSignal<usize>, i: i64| (format!("row{}:{i}", ix.get_untracked()), build(&child, &env))}
+                    />
+                }
+                .into_any()
+            } else {
+                view! {
+                    <For each={move || 0..n} key={|i: &i64| *i} children={move |i: i64| (format!("row{i}"), build(&child, &env))}/>
+                }
+                .into_any()
+            }
+        }
+        20 => {
+            let fb = p.at(1).clone();
+            let child = p.at(2).clone();
+            let envf = env.clone();
+            let env = env.clone();
+            view! { <Transition fallback=move || build(&fb, &envf)>{build(&child, &env)}</Transition> }
+                .into_any()
+        }
+        21 => {
+            let env = env.clone();
+            let id = p.at(1).num();
+            leptos::suspense::Unsuspend::new(move || probe(&env, id, K_DYNL, None)).into_any()
+        }
         _ => "x".into_any(),
+    }
+}
+
+
+// ------------------------------------------------------------------------------------------
+// router: (15 kind p child inner)
+//   kind 0  <Router><FlatRoutes><Route path="/r/:id" view=child/></FlatRoutes></Router>
+//   kind 1  <Router><Routes><ParentRoute path="/r" view=(child, <Outlet/>)><Route path=":id" view=inner/></ParentRoute></Routes></Router>
+//   kind 2  like 0, but the request's URL matches no route: the fallback (= child) is rendered
+// The route views are built when the router is *rendered*, under owners the router captured when
+// the component ran; every route view reports the route parameter it finds in context (the
+// request's URL is /r/<10000*request + 7>).
+// ------------------------------------------------------------------------------------------
+fn route_probe(env: &Env, id: i64) -> String {
+    use leptos_router::hooks::use_params_map;
+    let owner_req = ambient_owner_req();
+    let t0 = use_context::<Tag0>().map(|t| t.0).unwrap_or(-1);
+    let t1 = use_context::<Tag1>().map(|t| t.0).unwrap_or(-1);
+    let item = use_params_map()
+        .read_untracked()
+        .get("id")
+        .and_then(|s| s.parse::<i64>().ok())
+        .unwrap_or(-1);
+    let e = Event { req: env.req as i64, probe: id, kind: K_ROUTE, owner_req, t0, t1, item };
+    W.with(|w| w.borrow_mut().events.push(e));
+    format!("[{id}:{owner_req}:{t0}:{t1}:{item}]")
+}
+
+fn build_router(p: &Sexp, env: &Env) -> AnyView {
+    use leptos_router::{
+        components::{FlatRoutes, Outlet, ParentRoute, Route, Router, Routes},
+        path,
+    };
+    let kind = p.at(1).num();
+    let id = p.at(2).num();
+    let child = p.at(3).clone();
+    let inner = p.at(4).clone();
+    let (env1, env2, env3) = (env.clone(), env.clone(), env.clone());
+    let (child2, child3) = (child.clone(), child.clone());
+    if kind == 1 {
+        view! {
+            <Router>
+                <Routes fallback=move || ("nf", build(&child3, &env3))>
+                    <ParentRoute
+                        path=path!("/r")
+                        view=move || (route_probe(&env1, id), build(&child, &env1), view! { <Outlet/> }).into_any()
+                    >
+                        <Route path=path!(":id") view=move || (route_probe(&env2, id + 1), build(&inner, &env2)).into_any()/>
+                    </ParentRoute>
+                </Routes>
+            </Router>
+        }
+        .into_any()
+    } else {
+        view! {
+            <Router>
+                <FlatRoutes fallback=move || ("nf", build(&child2, &env2))>
+                    <Route path=path!("/r/:id") view=move || (route_probe(&env1, id), build(&child, &env1)).into_any()/>
+                </FlatRoutes>
+            </Router>
+        }
+        .into_any()
+    }
+}
+
+fn has_op(p: &Sexp, op: i64, kind: i64) -> bool {
+    if p.at(0).num() == op && matches!(p.at(0), Num(_)) && p.at(1).num() == kind {
+        return true;
+    }
+    p.list().iter().any(|c| matches!(c, Lst(_)) && has_op(c, op, kind))
+}
+
+/// the URL of request `idx`: /r/<10000*idx+7>, or a path no route matches if the program asks
+/// for the fallback
+fn request_path(prog: &Sexp, idx: usize) -> String {
+    if has_op(prog, 15, 2) {
+        format!("/nomatch/{}", 10000 * idx + 7)
+    } else {
+        format!("/r/{}", 10000 * idx + 7)
+    }
+}
+
+// ------------------------------------------------------------------------------------------
+// resources: (16 kind flags mode g p1 p2 p3 child)
+//   kind  0 Resource  1 OnceResource  2 ArcResource  3 ArcOnceResource  4 AsyncDerived
+//         5 ArcAsyncDerived  6 ArcResource converted into a Resource by the reader
+//   flags bit 0: blocking constructor, bit 1: FromToStringCodec (`new_str*`)
+//   mode  how the reader gets at the value: 0 `.await`  1 `.get()` in a reactive closure under a
+//         <Suspense>  2 `.by_ref().await`  3 `.ready().await` + untracked read  4 `.map()` under a
+//         <Suspense>
+// ------------------------------------------------------------------------------------------
+trait Rd: Clone + Send + Sync + 'static {
+    fn aw(self) -> PinnedFuture<String>;
+    fn by_ref_aw(self) -> PinnedFuture<String>;
+    fn ready_aw(self) -> PinnedFuture<String>;
+    fn get_now(&self) -> Option<String>;
+    fn map_now(&self) -> Option<String>;
+}
+
+macro_rules! impl_rd {
+    ($t:ty, by_ref = $by_ref:tt, map = $map:tt) => {
+        impl Rd for $t {
+            fn aw(self) -> PinnedFuture<String> {
+                Box::pin(async move { self.await })
+            }
+            fn by_ref_aw(self) -> PinnedFuture<String> {
+                impl_rd!(@by_ref $by_ref self)
+            }
+            fn ready_aw(self) -> PinnedFuture<String> {
+                Box::pin(async move {
+                    self.ready().await;
+                    // the value is there: this completes at its first poll
+                    self.await
+                })
+            }
+            fn get_now(&self) -> Option<String> {
+                self.try_get().flatten()
+            }
+            fn map_now(&self) -> Option<String> {
+                impl_rd!(@map $map self)
+            }
+        }
+    };
+    (@by_ref yes $s:ident) => {
+        Box::pin(async move { let g = $s.by_ref().await; (*g).clone() })
+    };
+    (@by_ref no $s:ident) => {
+        Box::pin(async move { $s.await })
+    };
+    (@map yes $s:ident) => {
+        $s.map(|v| v.clone())
+    };
+    (@map no $s:ident) => {
+        $s.try_get().flatten()
+    };
+}
+use leptos::server::codee::string::FromToStringCodec as StrC;
+use leptos_server::{ArcOnceResource, ArcResource};
+use reactive_graph::computed::{ArcAsyncDerived, AsyncDerived};
+impl_rd!(Resource<String>, by_ref = yes, map = yes);
+impl_rd!(Resource<String, StrC>, by_ref = yes, map = yes);
+impl_rd!(ArcResource<String>, by_ref = yes, map = yes);
+impl_rd!(ArcResource<String, StrC>, by_ref = yes, map = yes);
+impl_rd!(OnceResource<String>, by_ref = no, map = yes);
+impl_rd!(OnceResource<String, StrC>, by_ref = no, map = yes);
+impl_rd!(ArcOnceResource<String>, by_ref = no, map = yes);
+impl_rd!(ArcOnceResource<String, StrC>, by_ref = no, map = yes);
+impl_rd!(AsyncDerived<String>, by_ref = yes, map = no);
+impl_rd!(ArcAsyncDerived<String>, by_ref = yes, map = no);
+
+fn reader<R: Rd>(res: R, mode: i64, env: &Env, p3: i64, child: &Sexp) -> AnyView {
+    let env = env.clone();
+    let child = child.clone();
+    match mode {
+        1 | 4 => {
+            let envc = env.clone();
+            let inner = move || {
+                let v = if mode == 1 { res.get_now() } else { res.map_now() };
+                let s = probe(&envc, p3, K_DYNL, None);
+                format!("{}{s}", v.unwrap_or_else(|| "loading".into()))
+            };
+            (view! { <Suspense fallback=|| "fb16">{inner}</Suspense> }, build(&child, &env)).into_any()
+        }
+        _ => Suspend::new(async move {
+            let v = match mode {
+                2 => res.by_ref_aw().await,
+                3 => res.ready_aw().await,
+                _ => res.aw().await,
+            };
+            let s = probe(&env, p3, K_ASYNC, None);
+            (v, s, build(&child, &env))
+        })
+        .into_any(),
+    }
+}
+
+fn build_resource(p: &Sexp, env: &Env) -> AnyView {
+    let kind = p.at(1).num();
+    let flags = p.at(2).num();
+    let mode = p.at(3).num();
+    let rx = env.gates[p.at(4).num() as usize].clone();
+    let (p1, p2, p3) = (p.at(5).num(), p.at(6).num(), p.at(7).num());
+    let child = p.at(8);
+    let (blocking, strc) = (flags & 1 != 0, flags & 2 != 0);
+    let envf = env.clone();
+    // a fetcher reads the context in its synchronous part; a Once* resource is given a future
+    let sync_pre = !(kind == 1 || kind == 3);
+    let fetch = move || {
+        let envf = envf.clone();
+        let rx = rx.clone();
+        let pre = if sync_pre { Some(probe(&envf, p1, K_FETCH_PRE, None)) } else { None };
+        async move {
+            let a = match pre {
+                Some(a) => a,
+                None => probe(&envf, p1, K_FETCH_PRE, None),
+            };
+            let _ = rx.await;
+            let b = probe(&envf, p2, K_FETCH_POST, None);
+            format!("{a}{b}")
+        }
+    };
+    match (kind, strc, blocking) {
+        (0, false, false) => reader(Resource::new(|| (), move |_| fetch()), mode, env, p3, child),
+        (0, false, true) => reader(Resource::new_blocking(|| (), move |_| fetch()), mode, env, p3, child),
+        (0, true, false) => reader(Resource::new_str(|| (), move |_| fetch()), mode, env, p3, child),
+        (0, true, true) => reader(Resource::new_str_blocking(|| (), move |_| fetch()), mode, env, p3, child),
+        (1, false, false) => reader(OnceResource::new(fetch()), mode, env, p3, child),
+        (1, false, true) => reader(OnceResource::new_blocking(fetch()), mode, env, p3, child),
+        (1, true, false) => reader(OnceResource::new_str(fetch()), mode, env, p3, child),
+        (1, true, true) => reader(OnceResource::new_str_blocking(fetch()), mode, env, p3, child),
+        (2, false, false) => reader(ArcResource::new(|| (), move |_| fetch()), mode, env, p3, child),
+        (2, false, true) => reader(ArcResource::new_blocking(|| (), move |_| fetch()), mode, env, p3, child),
+        (2, true, false) => reader(ArcResource::new_str(|| (), move |_| fetch()), mode, env, p3, child),
+        (2, true, true) => reader(ArcResource::new_str_blocking(|| (), move |_| fetch()), mode, env, p3, child),
+        (3, false, false) => reader(ArcOnceResource::new(fetch()), mode, env, p3, child),
+        (3, false, true) => reader(ArcOnceResource::new_blocking(fetch()), mode, env, p3, child),
+        (3, true, false) => reader(ArcOnceResource::new_str(fetch()), mode, env, p3, child),
+        (3, true, true) => reader(ArcOnceResource::new_str_blocking(fetch()), mode, env, p3, child),
+        (4, _, _) => reader(AsyncDerived::new(move || fetch()), mode, env, p3, child),
+        (5, _, _) => reader(ArcAsyncDerived::new(move || fetch()), mode, env, p3, child),
+        (_, _, true) => {
+            let arc = ArcResource::new_blocking(|| (), move |_| fetch());
+            reader(Resource::<String>::from(arc), mode, env, p3, child)
+        }
+        _ => {
+            let arc = ArcResource::new(|| (), move |_| fetch());
+            reader(Resource::<String>::from(arc), mode, env, p3, child)
+        }
     }
 }
 
@@ -378,6 +793,9 @@ fn max_gate(p: &Sexp) -> i64 {
     match p.at(0).num() {
         6 | 13 => m = m.max(p.at(1).num()),
         8 => m = m.max(p.at(2).num()),
+        16 => m = m.max(p.at(4).num()),
+        17 if p.at(1).num() == 1 => m = m.max(p.at(3).num()),
+        22 => m = m.max(p.at(1).num()),
         _ => {}
     }
     for c in p.list() {
@@ -400,24 +818,42 @@ fn sb<T>(t: T) -> T {
     t
 }
 
+/// the four stream builders of integrations/axum (and actix), by shape:
+///  1  render_app_to_stream_with_context(_and_replace_blocks), supports_ooo: the out-of-order
+///     stream is created inside the builder future
+///  0  the same handler without out-of-order support (in-order stream created inside the future)
+///  2  render_app_async(_stream)_with_context: the builder future itself drives the whole in-order
+///     stream to the end and hands out one chunk
+///  3  render_app_to_stream_in_order_with_context: the in-order stream is created eagerly, when
+///     build_response calls the builder
 fn stream_builder_for(
-    ooo: bool,
+    ooo: i64,
 ) -> fn(AnyView, Box<dyn FnOnce() -> PinnedStream + Send>, bool) -> PinnedFuture<PinnedStream> {
-    // same shape as integrations/axum render_app_to_stream_with_context_and_replace_blocks
-    if ooo {
-        |app, chunks, _| {
+    match ooo {
+        1 => |app, chunks, _| {
             Box::pin(async move {
                 let app = app.to_html_stream_out_of_order();
                 Box::pin(app.chain(chunks())) as PinnedStream
             })
-        }
-    } else {
-        |app, chunks, _| {
+        },
+        2 => |app, chunks, _| {
+            Box::pin(async move {
+                let app = app.to_html_stream_in_order();
+                let app = app.collect::<String>().await;
+                let chunks = chunks();
+                Box::pin(once(async move { app }).chain(chunks)) as PinnedStream
+            })
+        },
+        3 => |app, chunks, _| {
+            let app = app.to_html_stream_in_order();
+            Box::pin(async move { Box::pin(app.chain(chunks())) as PinnedStream })
+        },
+        _ => |app, chunks, _| {
             Box::pin(async move {
                 let app = app.to_html_stream_in_order();
                 Box::pin(app.chain(chunks())) as PinnedStream
             })
-        }
+        },
     }
 }
 
@@ -555,6 +991,125 @@ mod real {
     }
 }
 
+#[cfg(feature = "sandboxed")]
+mod real_axum {
+    //! the shipped axum integration, driven by hand: page handlers (pipeline 3) and the
+    //! server-function handler (program op 22)
+    use super::*;
+    use axum::{body::Body, http::Request, response::IntoResponse};
+
+    thread_local! {
+        pub static SFN_ENVS: RefCell<HashMap<u32, (Env, Sexp)>> = RefCell::new(HashMap::new());
+    }
+
+    /// (22 g p1 p2 p3 slot cid): the body of a server function — reads the context, allocates an
+    /// arena item and registers a cleanup, awaits gate g, reads everything again, stays in
+    /// flight until the request is finished, reads once more
+    #[server]
+    pub async fn iso_probe(req: u32) -> Result<String, ServerFnError> {
+        let (env, p) = SFN_ENVS
+            .with(|e| e.borrow().get(&req).cloned())
+            .ok_or_else(|| ServerFnError::new("no such request"))?;
+        let r = env.req as i64;
+        let g = p.at(1).num() as usize;
+        let (p1, p2, p3) = (p.at(2).num(), p.at(3).num(), p.at(4).num());
+        let (slot, cid) = (p.at(5).num(), p.at(6).num());
+        let a = probe_mode(&env, p1, K_SFN_PRE, None, 6);
+        let has_sc = Owner::current_shared_context().is_some();
+        let h = StoredValue::new(10000 * r + slot);
+        env.slots.lock().unwrap().insert(slot, h);
+        on_cleanup(move || {
+            W.with(|w| {
+                let mut w = w.borrow_mut();
+                let d = w.cur_req as i64;
+                w.cleanups.push((r, cid, d));
+            })
+        });
+        let rx = env.gates[g].clone();
+        let _ = rx.await;
+        let b = probe_mode(&env, p2, K_SFN_POST, Some(slot), 6);
+        let rx = env.gates[env.gates.len() - 1].clone();
+        let _ = rx.await;
+        let c = probe_mode(&env, p3, K_SFN_POST, Some(slot), 6);
+        Ok(format!("{a}sc={has_sc}{b}{c}"))
+    }
+
+    pub fn register() {
+        leptos::server_fn::axum::register_explicit::<IsoProbe>();
+    }
+
+    async fn body_string(resp: axum::response::Response) -> String {
+        let mut data = resp.into_body().into_data_stream();
+        let mut out = String::new();
+        while let Some(chunk) = data.next().await {
+            if let Ok(b) = chunk {
+                out.push_str(&String::from_utf8_lossy(&b));
+            }
+        }
+        out
+    }
+
+    /// one server-function request, through leptos_axum::handle_server_fns_with_context
+    pub fn server_fn_request(
+        idx: usize,
+        additional_context: impl Fn() + 'static + Clone + Send,
+    ) -> Pin<Box<dyn Future<Output = PinnedStream>>> {
+        use leptos::server_fn::ServerFn;
+        let req = Request::builder()
+            .method("POST")
+            .uri(<IsoProbe as ServerFn>::PATH)
+            .header("content-type", "application/x-www-form-urlencoded")
+            .body(Body::from(format!("req={idx}")))
+            .unwrap();
+        Box::pin(async move {
+            let resp = leptos_axum::handle_server_fns_with_context(additional_context, req).await.into_response();
+            let s = body_string(resp).await;
+            Box::pin(once(async move { s })) as PinnedStream
+        })
+    }
+
+    /// one page request through the shipped handlers
+    pub fn page_request(
+        ooo: i64,
+        path: &str,
+        app_fn: impl Fn() -> AnyView + Clone + Send + Sync + 'static,
+        additional_context: impl Fn() + 'static + Clone + Send + Sync,
+    ) -> Pin<Box<dyn Future<Output = PinnedStream>>> {
+        let req = Request::builder().method("GET").uri(path).body(Body::empty()).unwrap();
+        let resp: Pin<Box<dyn Future<Output = axum::response::Response> + Send>> = match ooo {
+            1 => leptos_axum::render_app_to_stream_with_context(additional_context, app_fn)(req),
+            2 => leptos_axum::render_app_async_with_context(additional_context, app_fn)(req),
+            _ => leptos_axum::render_app_to_stream_in_order_with_context(additional_context, app_fn)(req),
+        };
+        Box::pin(async move {
+            let resp = resp.await;
+            let data = resp.into_body().into_data_stream();
+            Box::pin(data.map(|c| c.map(|b| String::from_utf8_lossy(&b).to_string()).unwrap_or_default())) as PinnedStream
+        })
+    }
+}
+
+/// the nonce of a response is random by design: it is blanked before responses are compared
+fn strip_nonce(html: &str) -> String {
+    let mut out = String::with_capacity(html.len());
+    let mut rest = html;
+    while let Some(i) = rest.find(" nonce=\"") {
+        out.push_str(&rest[..i]);
+        let after = &rest[i + 8..];
+        match after.find('"') {
+            Some(j) => {
+                out.push_str(" nonce=\"N\"");
+                rest = &after[j + 1..];
+            }
+            None => {
+                rest = "";
+            }
+        }
+    }
+    out.push_str(rest);
+    out
+}
+
 enum Main {
     NotStarted,
     Handler(Pin<Box<dyn Future<Output = PinnedStream>>>),
@@ -573,7 +1128,7 @@ struct Req {
 }
 
 struct Opts {
-    ooo: bool,
+    ooo: i64,
     pipeline: i64,
 }
 
@@ -607,27 +1162,60 @@ impl Req {
         };
         let prog = self.prog.clone();
         let final_rx = env.gates[n - 1].clone();
-        let app_fn = move || {
-            let app = build(&prog, &env);
-            let hold = Suspend::new(async move {
-                let _ = final_rx.await;
-                ""
-            });
-            (app, hold).into_any()
-        };
-        let additional_context = move || {
-            // first thing run under the new root owner: register it, provide the request's tag
-            if let Some(o) = Owner::current() {
-                W.with(|w| w.borrow_mut().roots.push((o.debug_id(), idx)));
+        let is_sfn = prog.at(0).num() == 22 && matches!(prog.at(0), Num(_));
+        let path = request_path(&prog, idx);
+        let app_fn = {
+            let env = env.clone();
+            let prog = prog.clone();
+            move || {
+                let app = build(&prog, &env);
+                let final_rx = final_rx.clone();
+                let hold = Suspend::new(async move {
+                    let _ = final_rx.await;
+                    ""
+                });
+                (app, hold).into_any()
             }
-            forget_root_on_cleanup(idx);
-            provide_context(Tag0(100 + idx as i64));
-            if let Some(sc) = Owner::current_shared_context() {
-                sc.set_is_hydrating(true);
-            }
-            let canary = StoredValue::new(500 + idx as i64);
-            W.with(|w| w.borrow_mut().canaries.insert(idx, canary));
         };
+        let additional_context = {
+            let path = path.clone();
+            move || {
+                // first thing run under the new root owner: register it, provide the request's tag
+                if let Some(o) = Owner::current() {
+                    W.with(|w| w.borrow_mut().roots.push((o.debug_id(), idx)));
+                }
+                forget_root_on_cleanup(idx);
+                provide_context(Tag0(100 + idx as i64));
+                provide_context(Tag2(10000 * idx as i64 + 1));
+                if !is_sfn {
+                    provide_context(PageOnly(1000 * idx as i64 + 999));
+                    provide_context(leptos_router::location::RequestUrl::new(&path));
+                }
+                if let Some(sc) = Owner::current_shared_context() {
+                    sc.set_is_hydrating(true);
+                }
+                let canary = StoredValue::new(500 + idx as i64);
+                W.with(|w| w.borrow_mut().canaries.insert(idx, canary));
+            }
+        };
+        if is_sfn {
+            #[cfg(feature = "sandboxed")]
+            {
+                real_axum::SFN_ENVS.with(|e| e.borrow_mut().insert(idx as u32, (env.clone(), prog.clone())));
+                self.main = Main::Handler(real_axum::server_fn_request(idx, additional_context));
+                self.flag.0.store(true, Ordering::SeqCst);
+                return;
+            }
+            #[cfg(not(feature = "sandboxed"))]
+            panic!("server-function requests need the sandboxed build (leptos_axum)");
+        }
+        #[cfg(feature = "sandboxed")]
+        if o.pipeline == 3 {
+            // the shipped axum handlers: build_response happens at the first poll
+            self.main = Main::Handler(real_axum::page_request(o.ooo, &path, app_fn, additional_context));
+            self.flag.0.store(true, Ordering::SeqCst);
+            return;
+        }
         let sbld = stream_builder_for(o.ooo);
         let fut: Pin<Box<dyn Future<Output = PinnedStream>>> = match o.pipeline {
             #[cfg(feature = "sandboxed")]
@@ -781,6 +1369,11 @@ fn reset_world() {
     // drop what a previous (possibly panicked) case left behind
     let old = W.with(|w| std::mem::take(&mut *w.borrow_mut()));
     drop(old);
+    #[cfg(feature = "sandboxed")]
+    {
+        let old = real_axum::SFN_ENVS.with(|e| std::mem::take(&mut *e.borrow_mut()));
+        drop(old);
+    }
     let o = Owner::new_root(None);
     o.unset();
 }
@@ -1021,7 +1614,12 @@ fn run_world(progs: &[Sexp], active: &[usize], o: &Opts, plan: Plan) -> RunOut {
         let (run, _) = enabled(&reqs, active);
         run.len() as i64
     };
-    let html = reqs.iter().map(|q| q.html.clone()).collect();
+    let html: Vec<String> = reqs.iter().map(|q| strip_nonce(&q.html)).collect();
+    if std::env::var_os("H_ISO_DUMP").is_some() {
+        for (i, h) in html.iter().enumerate() {
+            eprintln!("--- response {} (active {:?}): {}", i + 1, active, h);
+        }
+    }
     let finished = reqs.iter().map(|q| q.finished()).collect();
     // snapshot before the teardown of whatever is still alive (an unfinished request's owner)
     let (events, cleanups) = W.with(|w| {
@@ -1075,7 +1673,7 @@ fn cleanups_of(out: &RunOut, r: usize) -> Sexp {
 ///                events solo_events cleanups solo_cleanups skipped))
 fn run_case(c: &Sexp) -> Sexp {
     let obs = c.at(0).num();
-    let ooo = c.at(2).num() != 0;
+    let ooo = c.at(2).num();
     let pipeline = c.at(3).num();
     let fine = c.at(4).num() != 0;
     let progs: Vec<Sexp> = c.at(5).list().to_vec();
@@ -1150,6 +1748,8 @@ fn main() {
     let args: Vec<String> = std::env::args().collect();
     let sub = args.get(1).map(String::as_str).unwrap_or("");
     any_spawner::Executor::init_custom_executor(Exec).expect("executor");
+    #[cfg(feature = "sandboxed")]
+    real_axum::register();
     match sub {
         "c20" => {
             let sandboxed_build = cfg!(feature = "sandboxed");
